@@ -150,10 +150,27 @@ def _sub_docs(doc, out):
     return out
 
 
+def _containers(doc, out):
+    if isinstance(doc, (dict, list)):
+        out.append(doc)
+        for x in (doc.values() if isinstance(doc, dict) else doc):
+            _containers(x, out)
+    return out
+
+
 def _mutate(doc, path, action):
-    """walk `path` (list of ints, taken modulo the size at each level) into doc and
-    apply a mutation there; returns a description"""
+    """even path[0]: walk `path` (ints taken modulo the size at each level) into doc; odd path[0]: pick
+    one of ALL dict/list nodes of the document uniformly (index path[1] modulo their number) - tagged
+    constant dicts deep inside are then hit as often as the top level; apply a mutation there"""
     cur = doc
+    if path and path[0] % 2 == 1:
+        nodes = _containers(doc, [])
+        cur = nodes[(path[1] if len(path) > 1 else 0) * 7919 % len(nodes)]
+        path = []
+        if isinstance(cur, dict) and cur and action % 2 == 0:
+            k = sorted(cur)[0]
+            cur[k] = "MUTATED"
+            return "overwrite first value of a container chosen among all %d" % len(nodes)
     trail = []
     for p in path:
         if isinstance(cur, dict) and cur:
